@@ -50,7 +50,6 @@ C06 = {
     "EAP": "EAP: SerializeTo writes Length from the struct while the decoder derives TypeData from the remaining bytes; they disagree for length-4 packets with trailing bytes",
     "GTPv1U": "GTPv1U.SerializeTo hard-codes protocol type 1 (the ProtocolType field is ignored)",
     "Geneve": "Geneve.SerializeTo never writes the Version bits",
-    "LLC": "LLC: a two-byte control field whose high byte is 0 is serialised as a one-byte control field",
     "RadioTap": "RadioTap: SerializeTo writes only the header fields it knows and the decoder appends a synthesised FCS to the payload; truncated flag on re-decode",
     "TLS": "TLS.SerializeTo writes only the record headers, not the record contents",
 }
